@@ -84,7 +84,7 @@ impl Sub for ScoreSub {
         "alphabet x layout x boundary-biased length x sequence mode x matrix regime (library / finite / -inf / small-int) x width 1..70 x extra wrap x row sub-range x reused buffer; every backend implemented for the layout (generic, sse2, avx2, dispatch forced to each arm) and every read-out path compared with a linear-sequence reference; non-trivial = L >= M and R >= 2 (distinct by full case)"
     }
     fn cases(&self, tier: Tier) -> u64 {
-        tier.pick(40_000, 2_000_000)
+        tier.pick(100_000, 3_000_000)
     }
     fn strategy(&self, tier: Tier) -> BoxedStrategy<Case> {
         case_strategy(tier)
